@@ -16,7 +16,8 @@ between member completions, for any number of members.
 
 Parent (portfolio.py:132-180, with the F25 repair):
 
-    solveStart        _close_existing; new Queue, new Pipe; start one process per member
+    solveStart        _close_existing (cannot fail: the F25b repair; the channels and processes of the previous call
+                      are dropped, they share nothing with the new call); new Queue, new Pipe; one process per member
     waiting           loop: signaling_queue.get
       getAns            a bool answer            ⇒ leave the loop, remember the winner
       getExnSkip        an exception, not exit_on_exception ⇒ continue
@@ -43,7 +44,7 @@ need it, the others are built into the shape of the steps):
 * A1 `OS.killAtomic`: after `Process.terminate()` has returned, the target cannot consume a control
   message that is sent later.  When the flag is `false` the model has the extra step `lateRecv`
   (a terminated member that was blocked in `recv` swallows one message), and `get_model` can then
-  block for ever (`Proofs/C19`, `lateRecv_can_block`).
+  block for ever (`Props/C19.lean`, `killAtomic_needed`).
 * A2 a member that leaves `_run_solver` in an orderly way exits only after its queued message has been
   written to the pipe (multiprocessing joins the feeder thread at exit), and `is_alive()` is false only
   after the exit.  Hence "no member alive and nothing queued" is a stable fact: `allDead` is atomic.
